@@ -25,13 +25,15 @@ PROPS["C14"] = dict(
 )
 
 PROPS["C01"] = dict(
-    units=[("verus", "scanner"), ("kani", "prec"), ("verus", "driver")],
+    units=[("verus", "scanner"), ("kani", "prec"), ("verus", "driver"), ("verus", "parser")],
     explanation="Every Scanner method is verified panic-free (all indexing and slicing in bounds, no overflow), terminating "
                 "(decreases on the remaining input) and progressing (next_token strictly advances and returns Eof at end of input) "
                 "for every input text; the Pratt loop's termination invariant (a token that can continue an expression has an infix parser) "
                 "holds for every token type. main.rs: parse_program returns Some only for a program without diagnostics, and in run_buf/run_prompt "
-                "VM::run is reachable only with bytecode from a compiler whose compile() returned Ok on such a program.",
-    not_covered=["panic-freedom of the expression parsers, statement parsers and of compile_* (recursion depth, radix literal slices, Statement::Invalid reaching the compiler)"],
+                "VM::run is reachable only with bytecode from a compiler whose compile() returned Ok on such a program. Parser: error recovery (synchronize) terminates "
+                "for every token stream; push_error/expect_peek record exactly one diagnostic; every statement parser returns Ok, and Statement::Invalid only together with a "
+                "new diagnostic - so the compiler's panic on Statement::Invalid is unreachable for executed programs.",
+    not_covered=["panic-freedom and termination of the ~45 expression-parsing functions, parse_block_statement's recursion and compile_* (recursion depth, radix literal slices)"],
     assumptions=["Unicode classification (is_alphabetic/is_alphanumeric) is uninterpreted except: NUL is in no class, alphabetic implies alphanumeric",
                  "fewer than 2^64 - 2 characters/tokens are scanned (read_position does not overflow)",
                  "string building shims (collect, to_string, format!) return some String"],
